@@ -55,8 +55,10 @@ def find_sub(hay, needle, start=0):
     return -1
 
 
-def check_out(outpath, main_src, packages, res, case, sigtail):
-    """packages: dict name -> expected body token list."""
+def check_out(outpath, main_src, packages, res, case, sigtail, breaks=None):
+    """packages: dict name -> expected body token list. breaks: dict name -> indices k into that list: body token k
+    ends a statement that lasts to the end of its line (`?...`, short if, a line comment follows it), so token k+1 of
+    the body must stand on a later line in the built code."""
     from pico8.lua import lua, lexer
     try:
         code = read_code(outpath)
@@ -99,6 +101,15 @@ def check_out(outpath, main_src, packages, res, case, sigtail):
         if find_sub(X, header_tokens(name), i + 1) >= 0:
             res.violation('C14|package-duplicated|%s' % sigtail, 'package %r is defined more than once' % name, case)
             return False
+        if breaks and breaks.get(name):
+            lexed = reflex.significant(reflex.lex(code))
+            h = i + len(header_tokens(name))
+            for k in breaks[name]:
+                if k + 1 < len(body) + 1 and lexed[h + k + 1].line <= lexed[h + k].line:
+                    res.violation('C14|package-line-statement-joined',
+                                  'package %r: %r ends a statement that lasts to the end of its line, but the built code '
+                                  'continues that line with %r: %r' % (name, lexed[h + k].text, lexed[h + k + 1].text, code[:300]), case)
+                    return False
         for k in range(i, i + len(block)):
             if used[k]:
                 res.violation('C14|package-overlap|%s' % sigtail, 'package blocks overlap', case)
@@ -411,6 +422,28 @@ def decoy_cases():
     return out
 
 
+LINE_STATS = [b'?"hi"', b'?1,2', b'if (c) z=1', b'if (c) z=1 else z=2', b'if (c) ?z', b'x=1 -- note', b'x=1 // note',
+              b'-- note', b'?"a" -- note', b'if (c) return']
+
+
+def linescoped_cases():
+    """A statement that lasts to the end of its line directly before a game-loop function whose `end` shares its line
+    with more code (and the function between two such statements, after a comment line, indented): leaving the
+    function out may not pull the code after it onto the statement's line."""
+    out = []
+    fns = [b'function _init() i=1 end', b'function _update()\n u=1\nend', b'function _draw() end function _update60() end']
+    for i, st in enumerate(LINE_STATS):
+        for j, fn in enumerate(fns):
+            for k, (gap, post) in enumerate(((b'\n', b' y=2\n'), (b'\n  ', b' y=2 w=3\n'), (b'\n\n', b' ?"b"\n'), (b'\n', b'\ny=2\n'),
+                                             (b'\n-- about the loop\n', b' y=2\n'))):
+                body = b'p=1\n' + st + gap + fn + post
+                expected = b'p=1\n' + st + b'\n' + post
+                nb = len(toks(b'p=1\n' + st)) - 1
+                files = {'p.lua': body, '__expected__': expected, '__breaks__': {b'p': [nb] if toks(st) else []}}
+                out.append(('line-stat-%d-%d-%d' % (i, j, k), files, b'require("p")\nz=1\n', [], None, {b'p': '__expected__'}))
+    return out
+
+
 def call_context_cases():
     """require() wherever an expression can stand in the main program and inside a package: every context must be
     found by the walker (the package gets embedded) and left as written."""
@@ -473,7 +506,7 @@ def path_cases():
          dict((b's%d' % i, 's%d.lua' % i) for i in range(40))),
         ('chain-40', dict(('c%d.lua' % i, (b'require("c%d")\n' % (i + 1) if i < 39 else b'') + b'c%d=%d\n' % (i, i)) for i in range(40)),
          b'require("c0")\nz=1\n', [], None, dict((b'c%d' % i, 'c%d.lua' % i) for i in range(40))),
-    ] + nested_loadpath_cases() + odd_name_cases() + call_context_cases() + decoy_cases()
+    ] + nested_loadpath_cases() + odd_name_cases() + call_context_cases() + decoy_cases() + linescoped_cases()
 
 
 def run_path(pc, res):
@@ -483,7 +516,7 @@ def run_path(pc, res):
     old = os.environ.pop('PICO8_LUA_PATH', None)
     try:
         for f, data in files.items():
-            if f == '__expected__':
+            if f in ('__expected__', '__breaks__'):
                 continue
             os.makedirs(os.path.dirname(os.path.join(d, f)) or d, exist_ok=True)
             open(os.path.join(d, f), 'wb').write(data)
@@ -500,7 +533,7 @@ def run_path(pc, res):
         if expected is None:
             expected = {b'q': 'q.lua', b'p2': 'p2.lua'}
         pk = {n: toks(files[f]) for n, f in expected.items()}
-        if check_out(out, main, pk, res, case, 'path-' + name):
+        if check_out(out, main, pk, res, case, 'path-' + name, breaks=files.get('__breaks__')):
             res.outcome(('path', name))
     finally:
         os.environ.pop('PICO8_LUA_PATH', None)
